@@ -148,9 +148,52 @@ func rulesAllowedSet(p *Prog, r *Report) {
 	{
 		var why []string
 		stores := 0
+		// the same written as an accumulation: nodes = append(nodes, parse(list[i])) on every iteration that
+		// does not leave the function with an error, starting from an empty slice
+		var accPhi *ssa.Phi
+		varargs := map[ssa.Value]bool{}
+		for _, al := range findAppendLoops(s2n) {
+			if al.Coll != ssa.Value(s2n.Params[0]) || !al.Unconditional || len(al.OtherState) > 0 {
+				continue
+			}
+			elems, _ := appendedElems(al.App)
+			if len(elems) != 1 {
+				continue
+			}
+			empty := true
+			for _, e := range al.Acc.Edges {
+				switch x := e.(type) {
+				case *ssa.Const:
+					if !x.IsNil() {
+						empty = false
+					}
+				case *ssa.MakeSlice:
+					if k, ok := x.Len.(*ssa.Const); !ok || k.Value == nil || k.Int64() != 0 {
+						empty = false
+					}
+				case *ssa.Call:
+					if x != al.App {
+						empty = false
+					}
+				default:
+					empty = false
+				}
+			}
+			if !empty {
+				continue
+			}
+			accPhi = al.Acc
+			stores++
+			if pv := qz.prov(elems[0], 0); pv != "spdxexp.parse(elem(param:"+s2n.Params[0].Name()+"))#0" {
+				why = append(why, "the appended node is not parse(list[i]): "+pv)
+			}
+			if sl, ok := al.App.Call.Args[1].(*ssa.Slice); ok {
+				varargs[sl.X] = true
+			}
+		}
 		for _, b := range s2n.Blocks {
 			for _, in := range b.Instrs {
-				if phi, ok := in.(*ssa.Phi); ok && isLoopHeader(b) && phi.Comment != "rangeindex" {
+				if phi, ok := in.(*ssa.Phi); ok && isLoopHeader(b) && phi.Comment != "rangeindex" && phi != accPhi {
 					why = append(why, "loop carries state in "+phi.Comment)
 				}
 				st, ok := in.(*ssa.Store)
@@ -158,7 +201,7 @@ func rulesAllowedSet(p *Prog, r *Report) {
 					continue
 				}
 				ia, ok := st.Addr.(*ssa.IndexAddr)
-				if !ok {
+				if !ok || varargs[ia.X] {
 					continue
 				}
 				stores++
@@ -697,6 +740,8 @@ func onlyPermutes(p *Prog, fn *ssa.Function, seen map[*ssa.Function]bool) string
 var canonDiffRe = regexp.MustCompile(`^\(\*\(\*spdxexp\.node\)\.reconstructedLicenseString\((elem\([^()]*\))\) (!=|==) \*\(\*spdxexp\.node\)\.reconstructedLicenseString\((elem\([^()]*\))\)\)$`)
 var canonTextRe = regexp.MustCompile(`^\*\(\*spdxexp\.node\)\.reconstructedLicenseString\(elem\([^()]*\)\)$`)
 
+var elemOnlyRe = regexp.MustCompile(`^elem\([^()]*\)$`)
+
 // an element of a re-slice of X is an element of X
 var reSliceElemRe = regexp.MustCompile(`elem\(([^()\[\]]*)\[[^\]()]*\]\)`)
 var elemDiffRe = regexp.MustCompile(`^\((elem\([^()]*\)) (!=|==) (elem\([^()]*\))\)$`)
@@ -717,6 +762,22 @@ func compactionGuardExact(p *Prog, fn *ssa.Function, st *ssa.Store) string {
 				break
 			}
 			if !isStringType(phi.Type()) {
+				// a loop-carried element (last := s[0]; for _, curr := range s[1:] { …; last = curr }) is an
+				// element of the slice
+				if kindOf(phi.Type()) == KPtr {
+					common := ""
+					for i, e := range phi.Edges {
+						pv := reSliceElemRe.ReplaceAllString(qz.prov(e, 0), "elem($1)")
+						if !elemOnlyRe.MatchString(pv) || (i > 0 && pv != common) {
+							common = ""
+							break
+						}
+						common = pv
+					}
+					if common != "" {
+						qz.elemVar[phi] = common
+					}
+				}
 				continue
 			}
 			common := ""
